@@ -19,7 +19,7 @@ pub fn currency_ctx() -> Context {
 }
 
 /// Pool of deliberately colliding definitions for the sub-database sweep.
-const POOL: [&str; 10] = [
+const POOL: [&str; 11] = [
     "s !second",
     "m !meter",
     "milli- 1e-3",
@@ -30,11 +30,14 @@ const POOL: [&str; 10] = [
     "ms 42 s",
     "ks 7 m",
     "mins 99 m",
+    // a quantity that shares its name with a unit (as `force` and `jerk` do in the bundled file) and
+    // whose definition is a bare name: canonicalisation must keep following the *unit's* definition
+    "min ? s",
 ];
 /// Always loaded.  The last entry is a substance that is rejected half-way (its second property
 /// is malformed) after a first property whose names collide with pool units: nothing of a
 /// rejected definition may influence what a name denotes afterwards.
-const EXTRA: [&str; 3] = ["in 0.0254 m", "n 5 m", "junk {\n  ms const min 3 m\n  broken const y 1 nothing_defined\n}"];
+const EXTRA: [&str; 4] = ["in 0.0254 m", "n 5 m", "n ? m", "junk {\n  ms const min 3 m\n  broken const y 1 nothing_defined\n}"];
 const QP: [&str; 5] = ["", "m", "milli", "k", "mi"];
 const QU: [&str; 10] = ["s", "second", "m", "meter", "min", "in", "ms", "ks", "mins", "n"];
 
@@ -247,7 +250,7 @@ impl Space for C07 {
         Meta {
             id: "C07",
             level: "exploration",
-            rule: "every string prefix+name[+s] over all prefixes (and none) x all unit and base-unit names of the bundled database, with and without the currency overlay, looked up through Context::lookup on two independent loads and compared with an independent resolver over the registry dump (exact, else any valid prefix split, else plural); lookup(canonicalize(n)) must equal lookup(n). Plus all 2^10 sub-databases of a pool of colliding definitions x 100 concatenated query names; plus load histories on one Context: a 10-line base database followed by every subset of 7 redefinitions (aliases re-pointed, values changed, prefixes changed) as a second file, and every ordered pair of them as a second and third file, x 64 names each. Non-trivial = the name has at least one reading or rink resolves it; distinct by (config, name)".into(),
+            rule: "every string prefix+name[+s] over all prefixes (and none) x all unit and base-unit names of the bundled database, with and without the currency overlay, looked up through Context::lookup on two independent loads and compared with an independent resolver over the registry dump (exact, else any valid prefix split, else plural); lookup(canonicalize(n)) must equal lookup(n). Plus all 2^11 sub-databases of a pool of colliding definitions (incl. quantities named like units) x 100 concatenated query names; plus load histories on one Context: a 10-line base database followed by every subset of 7 redefinitions (aliases re-pointed, values changed, prefixes changed) as a second file, and every ordered pair of them as a second and third file, x 64 names each. Non-trivial = the name has at least one reading or rink resolves it; distinct by (config, name)".into(),
             assumptions: vec![
                 "the statement does not rank competing prefix splits: any valid split is accepted, determinism pins the choice".into(),
                 "the registry dump gives each exact name's value".into(),
